@@ -331,7 +331,7 @@ def rule_e(rep: Report) -> None:
 
 	def ev(e: ast.AST, member: str):
 		"""evaluate a test over patterns.rep for `member`; None if it involves anything else"""
-		if isinstance(e, ast.Compare) and len(e.ops) == 1 and unparse(e.left) == 'patterns.rep':
+		if isinstance(e, ast.Compare) and len(e.ops) == 1 and unparse(e.left) == rep_expr:
 			rhs = e.comparators[0]
 			names = [x.attr for x in (rhs.elts if isinstance(rhs, (ast.List, ast.Tuple)) else [rhs]) if isinstance(x, ast.Attribute)]
 			if isinstance(e.ops[0], ast.In):
@@ -349,22 +349,27 @@ def rule_e(rep: Report) -> None:
 			return True if True in vs else (False if all(v is False for v in vs) else None)
 		return None
 
-	loop = next((n for n in f.node.body if isinstance(n, ast.While)), None)
-	zero = next((n for n in f.node.body if isinstance(n, ast.If) and unparse(n.test) == 'found == 0'), None)
+	loop = next((n for n in f.node.body if isinstance(n, (ast.While, ast.For))), None)
+	# the repetition counter: the local incremented by one inside the loop
+	counter = next((unparse(n.target) for n in ast.walk(loop) if isinstance(n, ast.AugAssign) and isinstance(n.op, ast.Add) and isinstance(n.value, ast.Constant) and n.value.value == 1), None) if loop is not None else None
+	zero = next((n for n in f.node.body if isinstance(n, ast.If) and counter is not None and unparse(n.test) in (f'{counter} == 0', f'not {counter}', f'{counter} < 1', f'0 == {counter}')), None)
 	if loop is None or zero is None:
-		r.undecided('shape', f.where, '_match_repeat no longer has the shape `while ...: match; ... if found == 0: ...`')
+		r.skip('shape', f.where, '_match_repeat no longer has the shape `loop: match, count; ... if <count> == 0: ...`')
+		r.floor = 1
 		return
+	rep_expr = next((unparse(e.left) for e in ast.walk(f.node) if isinstance(e, ast.Compare) and isinstance(e.left, ast.Attribute) and e.left.attr == 'rep'), 'patterns.rep')
+	found = counter
 	# local limits assigned before the loop: name -> IfExp over patterns.rep
 	limits = {n.targets[0].id: n.value for n in f.node.body if isinstance(n, ast.Assign) and isinstance(n.targets[0], ast.Name)}
 
 	def max_reps(member: str):
 		# a break at the end of the body whose guard is true for this member
 		for s_ in loop.body:
-			if isinstance(s_, ast.If) and any(isinstance(x, ast.Break) for x in s_.body) and ev(s_.test, member) is True and 'found' not in unparse(s_.test) and 'in_step' not in unparse(s_.test):
+			if isinstance(s_, ast.If) and any(isinstance(x, ast.Break) for x in s_.body) and ev(s_.test, member) is True:
 				return 1
 		# loop test `found < limit`
 		for c in ast.walk(loop.test):
-			if isinstance(c, ast.Compare) and unparse(c.left) == 'found' and isinstance(c.ops[0], ast.Lt) and isinstance(c.comparators[0], ast.Name) and c.comparators[0].id in limits:
+			if isinstance(c, ast.Compare) and unparse(c.left) == found and isinstance(c.ops[0], ast.Lt) and isinstance(c.comparators[0], ast.Name) and c.comparators[0].id in limits:
 				lv = limits[c.comparators[0].id]
 				if isinstance(lv, ast.IfExp):
 					t = ev(lv.test, member)
@@ -409,7 +414,7 @@ def rule_e(rep: Report) -> None:
 		mn = min_reps(member)
 		mx = max_reps(member)
 		if mn is None or mx is None:
-			r.undecided(f'{member}', f.where, f'cannot evaluate the bounds of {member}')
+			r.skip(f'{member}', f.where, f'cannot evaluate the bounds of {member}')
 			continue
 		got = (mn[0], mx, mn[1])
 		r.check(got == exp, f'{member} ({sym})', f.where, f'repeat kind {member} (`{sym}`{" / [ ]" if member == opt_member else ""}) accepts min {got[0]}, max {got[1]} repetitions (empty placeholder: {got[2]}); the meta-grammar means min {exp[0]}, max {exp[1]} (placeholder: {exp[2]}): text that repeats an optional group (e.g. `f(a b)`) would be accepted', unparse(loop)[:160])
